@@ -169,7 +169,7 @@ func (c *c46Counter) BlockHeightWaiter(h uint64) (<-chan uint64, error) {
 	ch <- h
 	return ch, nil
 }
-func (c *c46Counter) CurrentBlock() (uint64, error)              { return c.o.current, nil }
+func (c *c46Counter) CurrentBlock() (uint64, error)             { return c.o.current, nil }
 func (c *c46Counter) WatchBlocks(context.Context) <-chan uint64 { return make(chan uint64) }
 
 // --- executors ---------------------------------------------------------------
@@ -255,7 +255,7 @@ func (h *c46Host) BlockCounter() (chain.BlockCounter, error) { return &c46Counte
 func (h *c46Host) OperatorToStakingProvider() (chain.Address, bool, error) {
 	return chain.Address("0xc46"), true, nil
 }
-func (h *c46Host) EligibleStake(chain.Address) (*big.Int, error)            { return big.NewInt(40_000), nil }
+func (h *c46Host) EligibleStake(chain.Address) (*big.Int, error)                { return big.NewInt(40_000), nil }
 func (h *c46Host) ValidateHeartbeatProposal([20]byte, *HeartbeatProposal) error { return nil }
 func (h *c46Host) GetWallet([20]byte) (*WalletChainData, error) {
 	return &WalletChainData{MainUtxoHash: h.mainHash, State: StateMovingFunds, MovingFundsTargetWalletsCommitmentHash: [32]byte{1}}, nil
